@@ -192,7 +192,9 @@ func measureDiags(diags []diagnostics.EntityDiagnostic, m *sMeasure) {
 	walk = func(path string, e *diagnostics.EntityDiagnostic) {
 		here := path + "/" + e.EntityKind + ":" + e.EntityName
 		for _, d := range e.Diagnostics {
-			lines = append(lines, fmt.Sprintf("%s %s %d %s %s %d:%d-%d:%d", here, d.Code, d.Severity, d.Message, d.FilePath,
+			// the message text is left out: ApiValidator words a route conflict after whichever route it met first, and it meets
+			// them in graph (map) order - two fresh processes already differ there (determinism is C13's subject)
+			lines = append(lines, fmt.Sprintf("%s %s %d %s %d:%d-%d:%d", here, d.Code, d.Severity, d.FilePath,
 				d.Range.StartLine, d.Range.StartCol, d.Range.EndLine, d.Range.EndCol))
 		}
 		for _, c := range e.Children {
@@ -459,6 +461,7 @@ func sessionRun(args []string) error {
 	allLen := fs.Int("all-len", 2, "histories up to this length run on every project; longer ones are dealt round-robin")
 	seed := fs.Int64("seed", 1, "")
 	only := fs.String("only-project", "", "")
+	baseRepeats := fs.Int("baseline-repeats", 3, "fresh processes that must agree before a project is used")
 	afterEvery := fs.Int("after-every", 1, "measure a brand-new pipeline in the same process after every n-th session")
 	timeout := fs.Int("timeout", 120, "")
 	fs.Parse(args)
@@ -533,10 +536,12 @@ func sessionRun(args []string) error {
 					note("trivial (no routes in the fresh analysis)")
 					return
 				}
-				b2, _ := runSessionOne(self, dir, baselineHist, false, r.timeout)
-				if b2 == nil || measuresEqual(b1.Steps, b2.Steps) != "" {
-					note("two fresh processes disagree (not this property's business)")
-					return
+				for k := 1; k < *baseRepeats; k++ {
+					b2, _ := runSessionOne(self, dir, baselineHist, false, r.timeout)
+					if b2 == nil || measuresEqual(b1.Steps, b2.Steps) != "" {
+						note("fresh processes disagree (not this property's business)")
+						return
+					}
 				}
 				_, shape := interesting(pc)
 				batch[i-start] = &proj{pc: pc, dir: dir, shape: shape, baseline: b1.Steps}
